@@ -2,12 +2,13 @@ _COMMON_TB = [
     'Coq 8.16.1 kernel incl. vm_compute (no native_compute); std++ 1.8.0 gmap/gset',
     'axioms: none (Print Assumptions: closed under the global context)',
     'correspondence harness harness/stakestates.go (script interpreter over the real keepers, two-fork runner, full store diff) + '
+    'harness/stakecreate.go (number expressions and address-string kinds for every argument, createValidator against MsgCreateValidator) + '
     'harness/stakequery.go (questions through the EVM and through the gRPC query router, ABI-shaped field-by-field comparison) + '
     'harness/evmexec.go + harness/asm.go (hand-assembled generic script contract, call-tree '
     'encoder, tracer that records which frames failed, reference accounting, metamorphic oracle) + vlib/core.py',
     'modelled, not verified: go-ethereum interpreter (only CALL/SSTORE/LOG/BALANCE/REVERT/SELFDESTRUCT/CREATE of the script contract are used; constructors run scripts through a DELEGATECALL into a library copy of the interpreter), '
     'SDK staking/distribution/authz/bank keepers (their effect on balances, delegations, rewards, withdraw address, grants is '
-    'transcribed in Evm/ExecModel.v and sampled), the ICS-20 precompile is exercised with transfer of the bond denomination over one open channel (escrow; transfer grants; no relaying), the bank / werc20 precompiles and redelegate / cancelUnbondingDelegation are not exercised by this driver, gas is not modelled '
+    'transcribed in Evm/ExecModel.v and sampled), the ICS-20 precompile is exercised with transfer of the bond denomination over one open channel (escrow; transfer grants; no relaying), the bank / werc20 precompiles, createValidator and redelegate / cancelUnbondingDelegation are not exercised by the evmexec driver (the stakestates driver runs them), gas is not modelled '
     '(gas price 0, ample gas limit)',
 ]
 
@@ -20,9 +21,10 @@ P = {
         {'name': 'stakestates', 'n': {'quick': 1500, 'thorough': 40000}, 'batch': 5000, 'shrink_field': 'script'},
         {'name': 'stakequery', 'n': {'quick': 400, 'thorough': 10000}, 'batch': 4000, 'shrink_field': 'script'},
     ],
-    'coq_header': 'From HV Require Import Staking.StakeModel.\nFrom HV Require Import Evm.ExecModel.\nFrom Coq Require Import ZArith NArith List.\nImport ListNotations.',
+    'coq_header': 'From HV Require Import Staking.StakeModel.\nFrom HV Require Import Staking.CreateValModel.\nFrom HV Require Import Evm.ExecModel.\nFrom Coq Require Import ZArith NArith List.\nImport ListNotations.',
     'lists': {'cases': {'type': 'ecase * list Z * eobs', 'check': 'mismatches', 'shard': 50},
               'stake': {'type': 'scase', 'check': 'stake_mismatches', 'shard': 400},
+              'create': {'type': 'ccase', 'check': 'create_mismatches', 'shard': 400},
               'squery': {'type': 'qcase', 'check': 'query_mismatches', 'shard': 150}},
     'search': {'rounds': 3, 'n': 2000},
     'rule': 'a case is a random setup (balances, delegations, allocated rewards, withdraw addresses, staking and ICS-20 transfer grants of the signer) '
@@ -34,11 +36,20 @@ P = {
             'delegate / undelegate / redelegate / empty-validator / jail / unjail / slash / end-block / advance-time / reward / '
             'set-withdraw-address / disable-withdraw-address operations, run through the real keepers on three validators) builds an '
             'unusual staking / distribution state; the call (one of delegate, undelegate, redelegate, cancelUnbondingDelegation, '
-            'withdrawDelegatorRewards, setWithdrawAddress, claimRewards, withdrawValidatorCommission, ICS-20 transfer; amounts 0, dust, '
-            'whole delegation +-1, whole balance +1, entry balance +1, 2^256-1) is run by the signer on two forks of that state: as an '
+            'withdrawDelegatorRewards, setWithdrawAddress, claimRewards, withdrawValidatorCommission, ICS-20 transfer, createValidator) is run by the signer on two forks of that state: as an '
             'Ethereum transaction through EvmKeeper.ApplyTransaction and as the native message(s) through the message router; the oracle '
             'compares success/failure and a full key/value diff of every persistent store except the EVM module\'s own (signer '
-            'sequence masked); non-trivial = both routes succeeded.  stakequery: a case is (script, questions): the script (the same '
+            'sequence masked); non-trivial = both routes succeeded.  ARGUMENT VALUES are a dimension of every method: each number is an expression '
+            'resolved on the state the script built (0, dust, whole delegation +-1, whole balance +1, entry balance +1, 2^63-1, 2^63, 2^64-1, 2^64, 2^64+1, 2^127, 2^128, '
+            '2^255, 2^256-2, 2^256-1, and a valid amount with bits set above bit 63 / 127 / 254: all+2^64, bal+2^128, ...; a tenth of the amounts need more than 64 bits); each validator / '
+            'withdrawer argument is a STRING given to both routes (an operator address with or without a record, a malformed string, a bech32 string with a foreign prefix, the empty '
+            'string, an account-prefix address, the address in upper case); ICS-20 receiver empty / over-long, memo over-long, timeout zero / passed / 2^64-1.  createValidator (a seventh of the cases; signer = caller = delegator, '
+            'the only caller the method accepts since F10): a valid argument set (description, three commission rates with 18 decimals, minimum self-delegation, value, operator address, fresh '
+            'ed25519 consensus key) with zero to two arguments moved to a boundary or out of range: each rate 0, 1, MinCommissionRate-1 (the script sets the parameter in half of the cases), the maximum rate +1, 10^18 +1, '
+            'the powers of two above and a valid rate plus 2^64 / 2^65 / 2^100 / 2^128 / 2^200 / 2^255, all three rates shifted by the same high bits; minimum self-delegation 0 / value+1 / huge; value 0 / balance+1 / '
+            '2^64 (a valid amount that needs 65 bits) / huge; description empty, each field at and above its length limit; operator address of another validator / malformed / foreign / empty / account prefix / upper case; '
+            'consensus key of an existing validator / 31, 33, 0 bytes; signer already an operator; against the native MsgCreateValidator with the same integers (a rate x is the LegacyDec x / 10^18) and strings; the full store '
+            'diff compares the validator record (commission, description, minimum self-delegation), the delegation, distribution records, balances and pools.  stakequery: a case is (script, questions): the script (the same '
             'operations; generator: two to six delegations of several delegators with odd amounts (dust, 10^18 + a little, arbitrary '
             '18-digit numbers) on one to three validators, one to three slashes by assorted fractions (1 bp .. 100 %, 5 %, 33.33 %) with '
             'unbondings, redelegations, rewards and further delegations in between and afterwards, jailed / unbonding / unbonded '
@@ -60,11 +71,15 @@ P = {
                     'stakestates: the auth accounts of the precompile addresses exist (as after any earlier call on a live chain); the block '
                     'proposer is a bonded validator; ante handler not run on either route (no fee, no sequence increment)',
                     'Staking/StakeModel.v does not model the 315-bit LegacyDec overflow panic (compared on amounts up to 2^256-1)',
+                    'an argument no native message can carry demands nothing: cancelUnbondingDelegation with a creation height from 2^63 (MsgCancelUnbondingDelegation holds an int64) is run and recorded '
+                    '(tag cancel:height+2^64:...; on the pinned tree the precompile reads the low 64 bits), a consensus key that is not base64 is not generated',
+                    'withdrawValidatorCommission with the operator address in upper case (valid bech32, the native message is accepted; the precompile panics on the pinned tree) is run and recorded '
+                    '(tag commission:upper-case-operator-address:...), not demanded: reported as a candidate finding, switch ssDemandUpperCaseOperator in harness/stakestates.go',
                     'stakequery: the questions are Ethereum calls from an EOA (ApplyMessage without commit); the native side is the '
                     'application\'s own gRPC query router on the same context; a list method called with an offset > 0 is refused by the '
                     'precompile on the pinned tree (the ABI-decoded page key is empty but not nil, the SDK refuses key and offset together) '
                     'while the native query answers: recorded (tag page:offset-refused-by-precompile), not demanded'],
-    'level_text': 'Coq theorem: for every method, argument and state the Cosmos-side effect and success/failure of an owner call equal the native message (before the final StateDB commit); refutation witness K6 for the whole-transaction statement. Every run executes, on forks of the same state, the precompile transaction and the native message through the real message router and diffs balances, delegations, unbondings, rewards, withdraw addresses, grants; the model is compared with the implementation on the same cases. Staking share arithmetic (Staking/StakeModel.v: validator tokens / shares / status, SharesFromTokens / TokensFromShares with LegacyDec truncation, first delegation to an empty validator, last share takes all tokens, max-entries rule, operator jailing, removal of an unbonded validator): theorems that the owner\'s precompile route (decoding, identity rule, message, Delegate event computed after the message, mirror + final commit) equals the native route in success and resulting numbers for all states and amounts, delegation to an emptied validator succeeds with shares = tokens, round-trip bounds; driver stakestates compares both routes on unusual states by a full store diff and the model\'s numbers with both routes.  Read-only method delegation: Staking/StakeModel.v states the truncation rule (balance = TruncateInt(TokensFromShares(shares))) for the native query and the precompile; theorems: the precompile reports exactly the native shares and balance for every validator record and delegation (any tokens / shares, i.e. after any slashes), (0,0) exactly when the query says not-found, balance between floor(shares*tokens/total) and that + 1 and equal to the floor unless the quotient is within 10^-18/2 of the next integer, integer part of the shares at rate one, and a refutation of the rounded (RoundInt) variant with a two-delegator 5 % slash witness; driver stakequery compares all six read-only staking methods with the native gRPC queries field by field over slashed / in-flight states and the delegation answers of both routes with the model (list squery)',
-    'level_note': 'partial: interpreter and SDK keepers are modelled not verified; redelegate / cancelUnbondingDelegation / distribution methods in unusual states are covered by the differential store comparison only (no model of their arithmetic); the read-only staking methods are compared with the native gRPC queries by the stakequery driver (model: delegation only; unbondingDelegation / validator(s) / redelegation(s) are projections, compared field by field without a model) and, on one healthy validator, with keeper state by the evmquery driver together with bank balances / totalSupply / supplyOf; ICS-20: transfer of the bond denomination only',
+    'level_text': 'Coq theorem: for every method, argument and state the Cosmos-side effect and success/failure of an owner call equal the native message (before the final StateDB commit); refutation witness K6 for the whole-transaction statement. Every run executes, on forks of the same state, the precompile transaction and the native message through the real message router and diffs balances, delegations, unbondings, rewards, withdraw addresses, grants; the model is compared with the implementation on the same cases. Staking share arithmetic (Staking/StakeModel.v: validator tokens / shares / status, SharesFromTokens / TokensFromShares with LegacyDec truncation, first delegation to an empty validator, last share takes all tokens, max-entries rule, operator jailing, removal of an unbonded validator): theorems that the owner\'s precompile route (decoding, identity rule, message, Delegate event computed after the message, mirror + final commit) equals the native route in success and resulting numbers for all states and amounts, delegation to an emptied validator succeeds with shares = tokens, round-trip bounds; driver stakestates compares both routes on unusual states by a full store diff and the model\'s numbers with both routes.  createValidator (Staking/CreateValModel.v: MsgCreateValidator.ValidateBasic, CommissionRates.Validate, the message server\'s checks, NewMsgCreateValidator with the conversion of a uint256 rate as a parameter): theorems that with the identity conversion (LegacyNewDecFromBigIntWithPrec) the signer\'s call equals the native message for every state and ALL uint256 arguments and accepts exactly what the native message accepts, what an accepted creation satisfies and does, that another caller is refused, and - for the low-64-bits conversion (big.Int.Int64) - that it is the identity below 2^63, agrees with the code wherever the native message accepts, and is refuted by rates 2^64 + a valid set (and by one rate alone); the model is compared with both routes on every createValidator case (list create).  Read-only method delegation: Staking/StakeModel.v states the truncation rule (balance = TruncateInt(TokensFromShares(shares))) for the native query and the precompile; theorems: the precompile reports exactly the native shares and balance for every validator record and delegation (any tokens / shares, i.e. after any slashes), (0,0) exactly when the query says not-found, balance between floor(shares*tokens/total) and that + 1 and equal to the floor unless the quotient is within 10^-18/2 of the next integer, integer part of the shares at rate one, and a refutation of the rounded (RoundInt) variant with a two-delegator 5 % slash witness; driver stakequery compares all six read-only staking methods with the native gRPC queries field by field over slashed / in-flight states and the delegation answers of both routes with the model (list squery)',
+    'level_note': 'partial: interpreter and SDK keepers are modelled not verified; redelegate / cancelUnbondingDelegation / distribution methods in unusual states and with out-of-range arguments are covered by the differential store comparison only (no model of their arithmetic); createValidator: success / failure, commission, minimum self-delegation, tokens, shares and balance are modelled, description text, consensus key and the distribution records are compared by the store diff only; the read-only staking methods are compared with the native gRPC queries by the stakequery driver (model: delegation only; unbondingDelegation / validator(s) / redelegation(s) are projections, compared field by field without a model) and, on one healthy validator, with keeper state by the evmquery driver together with bank balances / totalSupply / supplyOf; ICS-20: transfer of the bond denomination only',
     'technique': 'Coq proof over a StateDB/precompile model + differential correspondence on generated EVM call trees',
 }
